@@ -34,6 +34,15 @@ CLAIMED = {
  "C12": dict(technique="SSA register/release pairing on all exits (same table, same key root through parameters and captured cells, deferred calls, continuation axiom), critical-section identity from must-locksets, found-arm guards, who-may-write table for Scheme fields",
              text="Sound static decision of structural necessary conditions of residue freedom: every registration into the handler tables / dkgRunning is released on all exits of the registering function or by a deferred release armed in the API entry; refuse-and-insert is one exclusive critical section; dispatch only on the found arm; no per-session state stored in Scheme fields. Registrations by a continuation that outlives the API call are a documented limitation.",
              design="§4 C12"),
+ "C01": dict(technique="barrier-depth computation over closures/continuations and the channel-closed-in-continuation idiom, happens-before through closure creation sites and static callers, provenance of the second barrier's members/topic/count, structural wiring check of SilentScheme",
+             text="Sound static decision of the orchestration clauses necessary for correctness under every delivery order: protocol start at barrier depth >= 2, handlers/classifier/Init in place before the second barrier opens, second barrier over the agreed list, counts (Threshold+1, RBC size), silent-mode wiring. The threshold algebra and byte-identity of outputs are numerical and not decided.",
+             design="§4 C01"),
+ "C06": dict(technique="typed backward walk (qualifier inference) over 16-bit carriers seeded by the named id types and closure-parameter roles; provenance slicing of point-to-point destinations; dominance guards in the duplicate check",
+             text="Sound static decision of the full structure of id translation: party ids at the backend boundary (Init, OnMsg, factories), node ids at the synchroniser, no relabelling conversions, session-dependent point-to-point destination, duplicate party refused, sorted result, Init's list from the checked translation.",
+             design="§4 C06"),
+ "C07": dict(technique="SSA path/dominance analysis of continuation-iff-success for both synchronisers, guards on tag ownership, linear/phi analysis of view and confirmation counting, LoadOrStore arm guard, sort-before-use, tag table provenance",
+             text="Sound static decision of structural necessary conditions of membership synchronisation: continuation iff nil return, tag must belong to the authenticated sender, exact-size and identical-list counting guards, one confirmation per peer, sorted output, complete tag table. Agreement under lying members/interleavings and timely completion are not decided.",
+             design="§4 C07"),
 }
 NOT_APPLICABLE = {
  "C08": "completeness of blind/sign/unblind/PoK is an algebraic identity over runtime group elements; no clause is visible in the shape of the code (DESIGN.md §4 C08)",
